@@ -45,7 +45,7 @@ def work(task):
 def coverage(ctx, merged):
   cov = c01.coverage(ctx, merged)
   cov['distinct_plans'] = len(merged['keys'].get('plans', ()))
-  cov['bounds'] = dict(shapes=len(families.c08_shapes(ctx.thorough)), annotations=['none', '@NoInject', '@With', '@NoWith', '@Ground'], intermediates='<=3 (5^k assignments each)')
+  cov['bounds'] = dict(shapes=len(families.c08_shapes(ctx.thorough)), annotations=['none', '@NoInject', '@With', '@NoWith', '@Ground', '@NoInject+@NoWith', '@NoInject+@With', '@Ground overwrite: false'], intermediates='<=3 (5^k assignments each)')
   return cov
 
 
